@@ -48,7 +48,15 @@ type Writer struct {
 	i16buf [2]byte // 用于 uint16/int16
 	i32buf [4]byte // 用于 uint32/int32/float32
 	i64buf [8]byte // 用于 uint64/int64/float64
+	// nesting 为当前写入器所处的消息嵌套层数（顶层为 0），见 MaxMessageNesting
+	nesting int
 }
+
+// MaxMessageNesting 是消息允许的最大嵌套层数（例如 PipeResult 携带的消息本身又是 PipeResult）。
+// 每嵌套一层，读写双方都要为内层消息体各保留一份缓冲区并多一层递归：不加限制时，一个层层嵌套的帧会让接收方的
+// 内存占用与嵌套深度成平方关系，自引用的消息则会让发送方无限递归直至栈溢出
+const MaxMessageNesting = 32
+
 
 // NewWriter 创建一个新的二进制写入器
 //
@@ -137,6 +145,9 @@ func (w *Writer) writeByte(v byte) *Writer {
 // WriteMessage 将消息序列化到缓冲区：先写入消息体（带 4 字节长度前缀），再写入消息名。
 // 若任一步骤失败，会回滚缓冲区到调用前长度，并保证 Bytes() 不包含部分写入的数据。
 func (w *Writer) WriteMessage(message any, codec Codec) (err error) {
+	if w.nesting >= MaxMessageNesting {
+		return fmt.Errorf("message nested deeper than %d levels: %T", MaxMessageNesting, message)
+	}
 	startLen := len(w.buf)
 	messageDesc := QueryMessageDesc(message)
 
@@ -608,6 +619,7 @@ func (w *Writer) Error() error {
 func (w *Writer) Reset() *Writer {
 	w.buf = w.buf[:0]
 	w.err = nil
+	w.nesting = 0
 	return w
 }
 
